@@ -58,6 +58,15 @@ Theorem C16_uid_invalid_number_is_BAD : forall uids s, set32 s = false -> impl_u
 Proof. exact impl_uid_invalid_is_bad. Qed.
 Print Assumptions C16_uid_invalid_number_is_BAD.
 
+(* UID mode: each selected message is selected once, and everything selected is a UID of the view *)
+Theorem C16_uid_no_duplicates : forall uids s l, impl_uid uids s = Some l -> NoDup l.
+Proof. exact uid_nodup. Qed.
+Print Assumptions C16_uid_no_duplicates.
+
+Theorem C16_uid_selected_exist : forall uids s l u, srt uids -> impl_uid uids s = Some l -> In u l -> In u uids.
+Proof. exact uid_selected_exist. Qed.
+Print Assumptions C16_uid_selected_exist.
+
 (* non-vacuity: a view of 5 messages, set "2:4,*,1" ; UIDs with gaps, set "3:7,*" *)
 Example C16_seq_example :
   impl_seq 5 [(WNum 4, WNum 2); (WStar, WStar); (WNum 1, WNum 1); (WNum 3, WNum 3)] = Some [2;3;4;5;1]
